@@ -1,6 +1,7 @@
 (** Under the named hypothesis [log_faithful] (git's log relates consecutive snapshots the way `git log --name-status`
-    documents) and the guard [fresh_dst], the before/after bodies selected by git.Changes are the fork-point content of
-    the origin path and the HEAD content of the destination path: for every surviving change of every history.
+    documents), the before/after bodies selected by git.Changes are the fork-point content of the origin path and the HEAD
+    content of the destination path: for every record of the change list of every history (no guard since fix d9e7954).
+    A record that is shadowed by a later rename onto its path is always a deletion.
 
     Snapshots: [snap 0] = tree at the fork point, [snap i] = tree after the i-th branch commit (1..n).
     [cidx] maps a commit id to its index. *)
@@ -26,7 +27,8 @@ Section Faithful.
     (is_st e "A" /\ le_src e = le_dst e /\ snap (i - 1) (le_dst e) = None /\ snap i (le_dst e) <> None) \/
     (is_st e "D" /\ le_src e = le_dst e /\ snap (i - 1) (le_src e) <> None /\ snap i (le_src e) = None) \/
     ((is_st e "M" \/ is_st e "T") /\ le_src e = le_dst e /\ snap (i - 1) (le_src e) <> None /\ snap i (le_src e) <> None) \/
-    (is_st e "R" /\ le_src e <> le_dst e /\ snap (i - 1) (le_src e) <> None /\ snap i (le_src e) = None /\ snap i (le_dst e) <> None).
+    (is_st e "R" /\ le_src e <> le_dst e /\ snap (i - 1) (le_src e) <> None /\ snap i (le_src e) = None /\ snap i (le_dst e) <> None /\
+     snap (i - 1) (le_dst e) = None).
 
   Record log_faithful : Prop := {
     (* the log is ordered by commit (git log --reverse) *)
@@ -37,44 +39,66 @@ Section Faithful.
     lf_frame : forall i p, 1 <= i <= n -> (forall e, In e log -> idx e = i -> ~ touches e p) -> snap i p = snap (i - 1) p;
     (* name-status lists a path at most once per commit *)
     lf_once : forall l1 e1 l2 e2 l3, log = l1 ++ e1 :: l2 ++ e2 :: l3 -> idx e1 = idx e2 ->
-                ~ touches e1 (le_src e2) /\ ~ touches e2 (le_src e1)
+                ~ touches e1 (le_src e2) /\ ~ touches e2 (le_src e1) /\ le_dst e1 <> le_dst e2
   }.
 
   Hypothesis LF : log_faithful.
 
   Notation trace' := (trace (fun _ => true) (fun _ => false)).
 
-  (** ** shape of a trace *)
-  Lemma trace_last : forall rl p, trace' rl p <> [] ->
-    exists newer em older, rl = newer ++ em :: older /\ (forall x, In x newer -> ~ touches x p) /\
-      le_dst em = p /\ trace' rl p = trace' older (le_src em) ++ [em].
+  (** ** shape of a trace: its last entry ends at the path; either the path is not touched afterwards (then k = 0), or the
+      next entry touching it is a rename of another file onto it (the record is shadowed) *)
+  Lemma trace_last : forall rl p k, trace' rl p k <> [] ->
+    exists newer em older, rl = newer ++ em :: older /\ le_dst em = p /\
+      trace' rl p k = trace' older (le_src em) 0 ++ [em] /\
+      ((k = 0 /\ forall x, In x newer -> ~ touches x p) \/
+       (exists n1 x n2, newer = n1 ++ x :: n2 /\ le_dst x = p /\ le_src x <> p /\ forall y, In y n2 -> ~ touches y p)).
   Proof.
-    induction rl as [|e r IH]; intros p Hne; [exfalso; apply Hne; reflexivity|].
+    induction rl as [|e r IH]; intros p k Hne; [exfalso; apply Hne; reflexivity|].
     cbn [trace] in *. unfold live in *. simpl in *.
     destruct (String.eqb (le_dst e) p) eqn:Ed.
-    - apply String.eqb_eq in Ed. exists [], e, r. simpl. repeat split; auto; try (intros x []).
-    - destruct (String.eqb (le_src e) p) eqn:Es; [exfalso; apply Hne; reflexivity|].
-      apply String.eqb_neq in Ed. apply String.eqb_neq in Es.
-      destruct (IH p Hne) as (newer & em & older & -> & Hn & Hd & Ht).
-      exists (e :: newer), em, older. simpl. repeat split; auto.
-      intros x [<-|Hx]; [intros [H|H]; contradiction | auto].
+    - apply String.eqb_eq in Ed. destruct k as [|k'].
+      + exists [], e, r. simpl. repeat split; auto. all: try (left; split; auto; intros x []).
+      + destruct (String.eqb (le_src e) p) eqn:Es.
+        * destruct (IH p (S k') Hne) as (newer & em & older & -> & Hd & Ht & [[Hk _]|(n1 & x & n2 & -> & Hx1 & Hx2 & Hn2)]); [discriminate|].
+          exists (e :: n1 ++ x :: n2), em, older. simpl. repeat split; auto. right.
+          exists (e :: n1), x, n2. simpl. repeat split; auto.
+        * apply String.eqb_neq in Es.
+          destruct (IH p k' Hne) as (newer & em & older & -> & Hd & Ht & [[Hk Hno]|(n1 & x & n2 & -> & Hx1 & Hx2 & Hn2)]).
+          -- exists (e :: newer), em, older. simpl. repeat split; auto. right.
+             exists [], e, newer. simpl. repeat split; auto.
+          -- exists (e :: n1 ++ x :: n2), em, older. simpl. repeat split; auto. right.
+             exists (e :: n1), x, n2. simpl. repeat split; auto.
+    - apply String.eqb_neq in Ed. destruct (String.eqb (le_src e) p) eqn:Es.
+      + destruct (IH p (S k) Hne) as (newer & em & older & -> & Hd & Ht & [[Hk _]|(n1 & x & n2 & -> & Hx1 & Hx2 & Hn2)]); [discriminate|].
+        exists (e :: n1 ++ x :: n2), em, older. simpl. repeat split; auto. right.
+        exists (e :: n1), x, n2. simpl. repeat split; auto.
+      + apply String.eqb_neq in Es.
+        destruct (IH p k Hne) as (newer & em & older & -> & Hd & Ht & [[Hk Hno]|(n1 & x & n2 & -> & Hx1 & Hx2 & Hn2)]).
+        * exists (e :: newer), em, older. simpl. repeat split; auto. left. split; auto.
+          intros x [<-|Hx]; [intros [H|H]; contradiction | auto].
+        * exists (e :: n1 ++ x :: n2), em, older. simpl. repeat split; auto. right.
+          exists (e :: n1), x, n2. simpl. repeat split; auto.
   Qed.
 
-  Lemma trace_first : forall rl p e1 rest, trace' rl p = e1 :: rest ->
-    exists newer older, rl = newer ++ e1 :: older /\ trace' older (le_src e1) = [].
+  Lemma trace_first : forall rl p k e1 rest, trace' rl p k = e1 :: rest ->
+    exists newer older, rl = newer ++ e1 :: older /\ trace' older (le_src e1) 0 = [].
   Proof.
-    induction rl as [|e r IH]; intros p e1 rest H; [discriminate|].
+    induction rl as [|e r IH]; intros p k e1 rest H; [discriminate|].
     cbn [trace] in H. unfold live in H. simpl in H.
     destruct (String.eqb (le_dst e) p) eqn:Ed.
-    - destruct (trace' r (le_src e)) as [|x xs] eqn:T.
-      + simpl in H. inversion H; subst. exists [], r. split; auto.
-      + simpl in H. inversion H; subst. destruct (IH _ _ _ T) as (newer & older & -> & Ht).
-        exists (e :: newer), older. split; auto.
-    - destruct (String.eqb (le_src e) p) eqn:Es; [discriminate|].
-      destruct (IH _ _ _ H) as (newer & older & -> & Ht). exists (e :: newer), older. split; auto.
+    - destruct k as [|k'].
+      + destruct (trace' r (le_src e) 0) as [|x xs] eqn:T.
+        * simpl in H. inversion H; subst. exists [], r. split; auto.
+        * simpl in H. inversion H; subst. destruct (IH _ _ _ _ T) as (newer & older & -> & Ht).
+          exists (e :: newer), older. split; auto.
+      + destruct (String.eqb (le_src e) p);
+          destruct (IH _ _ _ _ H) as (newer & older & -> & Ht); exists (e :: newer), older; split; auto.
+    - destruct (String.eqb (le_src e) p);
+        destruct (IH _ _ _ _ H) as (newer & older & -> & Ht); exists (e :: newer), older; split; auto.
   Qed.
 
-  Lemma trace_empty : forall rl p, trace' rl p = [] ->
+  Lemma trace_empty : forall rl p, trace' rl p 0 = [] ->
     (forall x, In x rl -> ~ touches x p) \/
     exists newer e' older, rl = newer ++ e' :: older /\ (forall x, In x newer -> ~ touches x p) /\
       le_src e' = p /\ le_dst e' <> p.
@@ -82,7 +106,7 @@ Section Faithful.
     induction rl as [|e r IH]; intros p H; [left; intros x []|].
     cbn [trace] in H. unfold live in H. simpl in H.
     destruct (String.eqb (le_dst e) p) eqn:Ed.
-    - destruct (trace' r (le_src e)); discriminate.
+    - destruct (trace' r (le_src e) 0); discriminate.
     - apply String.eqb_neq in Ed. destruct (String.eqb (le_src e) p) eqn:Es.
       + apply String.eqb_eq in Es. right. exists [], e, r. simpl. repeat split; auto; try (intros x []).
       + apply String.eqb_neq in Es. destruct (IH p H) as [Hno|(newer & e' & older & -> & Hn & Hs & Hd)].
@@ -136,7 +160,7 @@ Section Faithful.
   Definition present_before (e : entry) : Prop := snap (idx e - 1) (le_src e) <> None.
 
   Lemma before_first_stable e1 newer older :
-    rev log = newer ++ e1 :: older -> trace' older (le_src e1) = [] -> present_before e1 ->
+    rev log = newer ++ e1 :: older -> trace' older (le_src e1) 0 = [] -> present_before e1 ->
     snap (idx e1 - 1) (le_src e1) = snap 0 (le_src e1).
   Proof.
     intros E Ht Hp. pose proof (rev_split (rev log) _ _ _ E) as EL.
@@ -197,24 +221,63 @@ Section Faithful.
     change (last (x :: y :: r') d) with (last (y :: r') d). apply IH. discriminate.
   Qed.
 
-  Theorem change_bodies_faithful p ch :
-    fresh_dst (fun _ => true) (fun _ => false) log ->
-    get_change_by_path (fold_log type_at (fun _ => true) (fun _ => false) log) p = Some ch ->
+  (** ** G3: a record whose path is touched again without being continued was shadowed by a rename onto the path; the path
+      was absent then, so the record's last entry is a deletion *)
+  Lemma shadowed_is_deletion p n1 x n2 em older :
+    rev log = (n1 ++ x :: n2) ++ em :: older -> le_dst em = p -> le_dst x = p -> le_src x <> p ->
+    (forall y, In y n2 -> ~ touches y p) ->
+    is_st em "D" /\ In x log.
+  Proof.
+    intros E Hdm Hdx Hsx Hn2.
+    assert (EL : log = rev older ++ em :: rev n2 ++ x :: rev n1).
+    { rewrite <- (rev_involutive log), E, !rev_app_distr. simpl. rewrite <- !app_assoc. reflexivity. }
+    assert (Hinm : In em log) by (rewrite EL; apply in_or_app; right; left; auto).
+    assert (Hinx : In x log) by (rewrite EL; apply in_or_app; right; right; apply in_or_app; right; left; auto).
+    split; [|exact Hinx].
+    pose proof (lf_mono LF _ _ _ _ _ EL) as Hle.
+    assert (Hneq : idx em <> idx x).
+    { intro Heq. destruct (lf_once LF _ _ _ _ _ EL Heq) as (_ & _ & H3). apply H3. congruence. }
+    pose proof (lf_range LF x Hinx) as Hrx. pose proof (lf_range LF em Hinm) as Hrm.
+    assert (Habs : snap (idx x - 1) p = None).
+    { destruct (lf_entry LF x Hinx) as [(_ & E1 & _)|[(_ & E1 & _)|[(_ & E1 & _)|(_ & _ & _ & _ & _ & Hnone)]]];
+        try (exfalso; apply Hsx; rewrite E1; exact Hdx).
+      rewrite <- Hdx. exact Hnone. }
+    assert (Hsame : snap (idx x - 1) p = snap (idx em) p).
+    { apply frame_range; [lia | lia |].
+      intros e He Hi. rewrite EL in He. apply in_app_or in He. destruct He as [He|[<-|He]].
+      - pose proof (idx_before _ _ _ _ EL He). lia.
+      - lia.
+      - apply in_app_or in He. destruct He as [He|[<-|He]].
+        + apply Hn2. apply in_rev. exact He.
+        + lia.
+        + assert (EL2 : log = (rev older ++ em :: rev n2) ++ x :: rev n1) by (rewrite EL, <- app_assoc; reflexivity).
+          pose proof (idx_after _ _ _ _ EL2 He). lia. }
+    rewrite Habs in Hsame. symmetry in Hsame.
+    destruct (lf_entry LF em Hinm) as [(_ & _ & _ & Hp)|[(Hs & _)|[(_ & E1 & _ & Hp)|(_ & _ & _ & _ & Hp & _)]]].
+    - exfalso. apply Hp. rewrite Hdm. exact Hsame.
+    - exact Hs.
+    - exfalso. apply Hp. rewrite E1, Hdm. exact Hsame.
+    - exfalso. apply Hp. rewrite Hdm. exact Hsame.
+  Qed.
+
+  Theorem change_bodies_faithful p k ch :
+    nth_by_path (fold_log type_at (fun _ => true) (fun _ => false) log) p k = Some ch ->
     exists e1 em,
       In e1 log /\ In em log /\
       hd "" (ch_commits ch) = le_commit e1 /\ last (ch_commits ch) "" = le_commit em /\
       ch_after ch = p /\ le_dst em = p /\ ch_status ch = le_status em /\
-      (* Body.After is read at the last commit of the chain; the path is not touched afterwards *)
-      snap n p = snap (idx em) p /\
+      (* Body.After is read at the last commit of the chain; either the path is not touched afterwards, or the record is a
+         deletion that a later rename landed on *)
+      ((k = 0 /\ snap n p = snap (idx em) p) \/ (is_st em "D" /\ exists x, In x log /\ le_dst x = p /\ le_src x <> p)) /\
       (* Body.Before is read at the parent of the first commit of the chain; the origin is untouched until then *)
       (ch_before ch <> "" -> snap (idx e1 - 1) (ch_before ch) = snap 0 (ch_before ch) /\ snap 0 (ch_before ch) <> None).
   Proof.
-    intros Hfresh Hget.
-    pose proof (fold_refines_trace type_at _ _ log Hfresh p) as Hr. unfold fold in Hr. rewrite Hr in Hget. clear Hr.
-    destruct (trace' (rev log) p) as [|e1 rest] eqn:T; [discriminate|].
-    assert (Hne : trace' (rev log) p <> []) by (rewrite T; discriminate).
-    destruct (trace_last _ _ Hne) as (newer & em & older & E & Hno & Hd & Ht).
-    destruct (trace_first _ _ _ _ T) as (nw1 & od1 & E1 & Ht1).
+    intros Hget.
+    pose proof (fold_refines_trace type_at (fun _ => true) (fun _ => false) log p k) as Hr. unfold fold in Hr. rewrite Hr in Hget. clear Hr.
+    destruct (trace' (rev log) p k) as [|e1 rest] eqn:T; [discriminate|].
+    assert (Hne : trace' (rev log) p k <> []) by (rewrite T; discriminate).
+    destruct (trace_last _ _ _ Hne) as (newer & em & older & E & Hd & Ht & Hcase).
+    destruct (trace_first _ _ _ _ _ T) as (nw1 & od1 & E1 & Ht1).
     assert (Hin1 : In e1 log) by (apply in_rev; rewrite E1; apply in_or_app; right; left; auto).
     assert (Hinm : In em log) by (apply in_rev; rewrite E; apply in_or_app; right; left; auto).
     assert (Hlast : last (e1 :: rest) e1 = em).
@@ -225,7 +288,10 @@ Section Faithful.
       rewrite <- Hlast. apply last_map_commit. discriminate.
     - change (match rest with [] => e1 | _ :: _ => last rest e1 end) with (last (e1 :: rest) e1).
       rewrite Hlast. split; [exact Hd|]. split; [exact Hd|]. split; [reflexivity|]. split.
-      + eapply after_last_stable; eauto.
+      + destruct Hcase as [[Hk Hno]|(n1 & x & n2 & En & Hx1 & Hx2 & Hn2)].
+        * left. split; auto. eapply after_last_stable; eauto.
+        * right. rewrite En in E. destruct (shadowed_is_deletion p n1 x n2 em older E Hd Hx1 Hx2 Hn2) as [HD Hinx].
+          split; auto. exists x. auto.
       + intro Hb. destruct (initial_before_present e1 Hin1 Hb) as [Eb Hp]. rewrite Eb.
         pose proof (before_first_stable e1 nw1 od1 E1 Ht1 Hp) as Hs. split; auto.
         rewrite <- Hs. exact Hp.
